@@ -32,10 +32,10 @@ func checkC09(c *Ctx) {
 	c.Rule("C09.R1", "the ellipsoid, datum, prime-meridian and unit tables and the named numeric constants of package proj equal the bundled proj4js 2.3.12 source (same keys; numbers equal as float64; towgs84 element-wise)")
 	c.Rule("C09.R2", "no constant division of two integer constants with a non-integer quotient is used in a floating-point expression (it would be evaluated as integer division)")
 	c.Rule("C09.R3", "model evaluation with a symbolic parameter value: for every PROJ.4 key that the bundled proj4js multiplies by D2R, proj.Parse of `+key=P` stores P × deg2rad (once) in the fields that depend on P; for the other numeric keys no field is P × deg2rad")
-	c.Rule("C09.R6", "7-parameter datum shift: on every path the three output ordinates are computed simultaneously from the same inputs (no output is an operand of another); each output is +1·own ordinate ± p[3+k]·other ordinate (k the third axis) with an antisymmetric coupling matrix, translated by p[axis]; the inverse shift uses the transposed matrix, the opposite translation sign and divides by the scale the forward one multiplies by")
+	c.Rule("C09.R6", "model evaluation: every function of package proj taking one datum and three ordinates and returning three ordinates is evaluated on a symbolic geocentric position with the datum of a reference parsed from symbolic +towgs84 values; those that are rational and mention a shift parameter are the shift functions and equal, as rational terms, the 3- and 7-parameter Helmert shift to or from WGS84 in the stored parameters; the whole shift between a 7-parameter and a 3-parameter datum, with the geodetic and geocentric conversions (the members of the class that need a transcendental function) left as named operations, hands the conversion back exactly from₃(to₇(G)) of the source's geocentric position G and returns its three results")
 	c.Rule("C09.R7", "eccentricity arguments: with SR.E : e, SR.Es : e², sqrt(e²) : e, e·e : e², 1−(B/A)² : e², every helper parameter receives the same one of the two at all typed call sites")
-	c.Rule("C09.R8", "the NewTransform pipeline applies each reference's parameters once and mirrored around the datum shift (unit, prime meridian, angle unit, projection member, axis), and every source-side stage reads the one reference the coordinates are currently expressed in")
-	c.Rule("C09.R4", "a coordinate produced by one datum shift (which yields a height) is not narrowed to a 2-argument Transformer result and fed to a second datum shift within one transformation")
+	c.Rule("C09.R8", "model evaluation of the NewTransform pipeline (shared with C08.R2): each reference's unit, prime meridian, angle unit, projection member and axis order is applied once, on its own side of the datum shift, for eleven pairs of references including shifted datums with prime meridians on either side")
+	c.Rule("C09.R4", "model evaluation of the pipeline between a 3-parameter and a 7-parameter datum: the position goes through a single datum shift, or the height each shift produces is what the next one is given")
 	p := c.P.Pkg("proj")
 	if p == nil {
 		c.Unk("C09.R1", "proj", token.NoPos, "package not loaded")
